@@ -147,6 +147,18 @@ impl<'t, 'a> MutGen<'t, 'a> {
                 if let Some(V::Str(s)) = current {
                     let chars: Vec<char> = s.chars().filter(|c| *c != '"').collect();
                     if !chars.is_empty() {
+                        // one in six: the whole text, the text but for its first / last character, the text and one more
+                        if self.t.chance(1, 6) {
+                            self.labels.insert("delimiter_as_long_as_the_text".into());
+                            let whole: String = chars.iter().collect();
+                            let d = match self.t.pick(4) {
+                                0 => whole,
+                                1 => chars[1..].iter().collect(),
+                                2 => chars[..chars.len() - 1].iter().collect(),
+                                _ => format!("{}x", whole),
+                            };
+                            return Some(strlit(&d));
+                        }
                         let a = self.t.pick(chars.len());
                         let len = 1 + self.t.pick(3.min(chars.len() - a));
                         let d: String = chars[a..a + len].iter().collect();
